@@ -81,6 +81,11 @@ var extraProps = map[string][]string{
 	"TPC-POISON": {"C16"}, "TPC-RETRY": {"C16"}, "TPC-COMMITTED-ONLY": {"C16"},
 	"CRDT-DECISION": {"C16"}, "MERGE-COMPONENT": {"C16"}, "MERGE-MONO": {"C16"}, "OPERAND-TRAVERSED": {"C16"},
 	"WRITE-UNCOND": {"C16"}, "WRITE-INFLATES": {"C16"}, "MERGE-PURE": {"C16"},
+	// C06: the mailboxes of one node are elements of an IncMap, which commits / aborts the elements its key list names
+	"MB-CONN-DROP": {"C17"}, // a connection closed after a failed exchange but still held is closed again by Close: Run's clean-up reports an error
+	"HASHMAP-KEYS": {"C06", "C02"}, "HASHMAP-EQ": {"C06"},
+	// C04: the procedure variables, .stack and .pc are local resources; Return + Call write them several times in one section
+	"SNAPSHOT-ONCE": {"C04"}, "LOCAL-RES": {"C04"},
 }
 
 var extraApplied bool
